@@ -172,3 +172,183 @@ pub fn model_cases(r: &mut Rng, n: usize) -> Vec<Case> {
     }
     out
 }
+
+// ------------------------------------------------------------------------------------------------
+// the iteration fragment of `Rooc/Pre/Iter.lean`: random expressions, expanded by the Rust and by the model;
+// the model's hand-unrolled TEXT is compiled by the Rust again and compared with the Rust's own expansion
+// ------------------------------------------------------------------------------------------------
+#[derive(Clone)]
+enum Ce { Lit(i64), Var(String), Add(Box<Ce>, Box<Ce>), Sub(Box<Ce>, Box<Ce>), Mul(Box<Ce>, Box<Ce>) }
+#[derive(Clone)]
+enum SrcG { Range(Ce, Ce, bool), Arr(Vec<i64>), Enum(Vec<i64>), Zip(Vec<i64>, Vec<i64>) }
+#[derive(Clone)]
+struct ItG { vars: Vec<String>, src: SrcG }
+#[derive(Clone)]
+enum Me { Lit(i64), Var(String), Cvar(String, Vec<Ce>), Bin(&'static str, Box<Me>, Box<Me>), Blk(&'static str, Vec<Me>), Agg(&'static str, Vec<ItG>, Box<Me>) }
+
+fn ce_sx(c: &Ce) -> String {
+    match c { Ce::Lit(i) => format!("(lit {})", i), Ce::Var(n) => format!("(var {})", sx::q(n)),
+        Ce::Add(a, b) => format!("(add {} {})", ce_sx(a), ce_sx(b)), Ce::Sub(a, b) => format!("(sub {} {})", ce_sx(a), ce_sx(b)), Ce::Mul(a, b) => format!("(mul {} {})", ce_sx(a), ce_sx(b)) }
+}
+fn ce_txt(c: &Ce) -> String {
+    match c { Ce::Lit(i) => if *i < 0 { format!("(0 - {})", -i) } else { i.to_string() }, Ce::Var(n) => n.clone(),
+        Ce::Add(a, b) => format!("({} + {})", ce_txt(a), ce_txt(b)), Ce::Sub(a, b) => format!("({} - {})", ce_txt(a), ce_txt(b)), Ce::Mul(a, b) => format!("({} * {})", ce_txt(a), ce_txt(b)) }
+}
+fn ints_sx(v: &[i64]) -> String { v.iter().map(|x| x.to_string()).collect::<Vec<_>>().join(" ") }
+fn src_sx(s: &SrcG) -> String {
+    match s { SrcG::Range(a, b, i) => format!("(range {} {} {})", ce_sx(a), ce_sx(b), i), SrcG::Arr(v) => format!("(arr {})", ints_sx(v)).replace("(arr )", "(arr)"),
+        SrcG::Enum(v) => format!("(enum {})", ints_sx(v)).replace("(enum )", "(enum)"), SrcG::Zip(a, b) => format!("(zip ({}) ({}))", ints_sx(a), ints_sx(b)) }
+}
+fn src_txt(s: &SrcG) -> String {
+    match s { SrcG::Range(a, b, i) => format!("{}{}{}", ce_txt(a), if *i { "..=" } else { ".." }, ce_txt(b)), SrcG::Arr(v) => arr(v),
+        SrcG::Enum(v) => format!("enumerate({})", arr(v)), SrcG::Zip(a, b) => format!("zip({}, {})", arr(a), arr(b)) }
+}
+fn it_sx(i: &ItG) -> String { format!("(it ({}) {})", i.vars.iter().map(|v| sx::q(v)).collect::<Vec<_>>().join(" "), src_sx(&i.src)) }
+fn it_txt(i: &ItG) -> String {
+    let tuple = matches!(i.src, SrcG::Enum(_) | SrcG::Zip(..));
+    if tuple { format!("({}) in {}", i.vars.join(", "), src_txt(&i.src)) } else { format!("{} in {}", i.vars[0], src_txt(&i.src)) }
+}
+fn me_sx(e: &Me) -> String {
+    match e {
+        Me::Lit(i) => format!("(lit {})", i), Me::Var(n) => format!("(var {})", sx::q(n)),
+        Me::Cvar(b, ix) => format!("(cvar {}{})", sx::q(b), ix.iter().map(|c| format!(" {}", ce_sx(c))).collect::<String>()),
+        Me::Bin(op, a, b) => format!("(bin {} {} {})", op, me_sx(a), me_sx(b)),
+        Me::Blk(k, es) => format!("(blk {}{})", k, es.iter().map(|x| format!(" {}", me_sx(x))).collect::<String>()),
+        Me::Agg(k, its, body) => format!("(agg {} ({}) {})", k, its.iter().map(it_sx).collect::<Vec<_>>().join(" "), me_sx(body)),
+    }
+}
+fn op_txt(op: &str) -> &'static str { match op { "add" => "+", "sub" => "-", "mul" => "*", "div" => "/", "and" => "and", "or" => "or", "xor" => "xor", "implies" => "implies", _ => "iff" } }
+fn me_txt(e: &Me) -> String {
+    match e {
+        Me::Lit(i) => i.to_string(), Me::Var(n) => n.clone(),
+        Me::Cvar(b, ix) => format!("{}{}", b, ix.iter().map(|c| match c { Ce::Lit(i) if *i >= 0 => format!("_{}", i), Ce::Var(n) => format!("_{}", n), c => format!("_{{{}}}", ce_txt(c)) }).collect::<String>()),
+        Me::Bin(op, a, b) => { let side = |x: &Me| if matches!(x, Me::Bin(..)) { format!("({})", me_txt(x)) } else { me_txt(x) }; format!("{} {} {}", side(a), op_txt(op), side(b)) }
+        Me::Blk(k, es) => format!("{}{{ {} }}", k, es.iter().map(me_txt).collect::<Vec<_>>().join(", ")),
+        Me::Agg(k, its, body) => format!("{}({}) {{ {} }}", k, its.iter().map(it_txt).collect::<Vec<_>>().join(", "), me_txt(body)),
+    }
+}
+
+struct FragGen<'a> { r: &'a mut Rng, fresh: usize, logic: bool }
+impl<'a> FragGen<'a> {
+    fn leaf(&mut self, bound: &[String]) -> Ce {
+        if !bound.is_empty() && self.r.chance(2, 3) { Ce::Var(self.r.pick(bound).clone()) } else { Ce::Lit(self.r.range(0, 3)) }
+    }
+    /// small integer expressions (values stay inside the declared index ranges)
+    fn ce(&mut self, bound: &[String], d: u32) -> Ce {
+        if d == 0 || self.r.chance(1, 2) { return self.leaf(bound); }
+        let a = Box::new(self.leaf(bound));
+        match self.r.below(3) { 0 => Ce::Add(a, Box::new(self.leaf(bound))), 1 => Ce::Sub(a, Box::new(self.leaf(bound))), _ => Ce::Mul(a, Box::new(Ce::Lit(self.r.range(0, 2)))) }
+    }
+    fn ints(&mut self) -> Vec<i64> { (0..self.r.below(4)).map(|_| self.r.range(0, 5)).collect() }
+    fn iter(&mut self, bound: &mut Vec<String>) -> ItG {
+        let mut name = |g: &mut Self| { g.fresh += 1; format!("v{}", g.fresh) };
+        let k = self.r.below(10);
+        let it = match k {
+            0 | 1 | 2 => { let lo = if self.r.chance(1, 2) { Ce::Lit(self.r.range(-2, 2)) } else { self.leaf(bound) };
+                let hi = if self.r.chance(1, 2) { self.leaf(bound) } else { Ce::Add(Box::new(self.leaf(bound)), Box::new(Ce::Lit(self.r.range(0, 3)))) };
+                ItG { vars: vec![name(self)], src: SrcG::Range(lo, hi, self.r.chance(1, 2)) } }
+            3 | 4 => ItG { vars: vec![name(self)], src: SrcG::Arr(self.ints()) },
+            5 | 6 => { let n = 1 + self.r.below(2); let mut vs: Vec<String> = (0..n).map(|_| name(self)).collect(); if self.r.chance(1, 6) { vs[0] = "_".into(); } if self.r.chance(1, 12) { vs.push(name(self)); } ItG { vars: vs, src: SrcG::Enum(self.ints()) } }
+            7 | 8 => { let n = 1 + self.r.below(2); let vs: Vec<String> = (0..n).map(|_| name(self)).collect(); ItG { vars: vs, src: SrcG::Zip(self.ints(), self.ints()) } }
+            // scoping errors: a name that is already bound
+            _ => { let v = if !bound.is_empty() && self.r.chance(1, 2) { self.r.pick(bound).clone() } else { name(self) }; ItG { vars: vec![v], src: SrcG::Arr(self.ints()) } }
+        };
+        for v in &it.vars { if v != "_" && !bound.contains(v) { bound.push(v.clone()); } }
+        it
+    }
+    fn me(&mut self, bound: &[String], d: u32) -> Me {
+        if d == 0 || self.r.chance(1, 4) {
+            return match self.r.below(6) {
+                0 => Me::Lit(self.r.range(0, 5)),
+                1 if !bound.is_empty() => Me::Var(self.r.pick(bound).clone()),
+                2 => Me::Var(if self.logic { "bz".into() } else { "z".into() }),
+                3 if !bound.is_empty() && self.r.chance(1, 8) => Me::Cvar("x".into(), vec![Ce::Var("q".into())]), // unbound identifier = name fragment
+                _ => { let n = 1 + self.r.below(2); let ix = (0..n).map(|_| self.ce(bound, 1)).collect(); Me::Cvar(if self.logic { "b".into() } else { "x".into() }, ix) }
+            };
+        }
+        match self.r.below(7) {
+            0 | 1 => { let ops: &[&'static str] = if self.logic { &["and", "or", "xor", "implies", "iff"] } else { &["add", "sub", "mul", "div"] }; let op = *self.r.pick(ops); Me::Bin(op, Box::new(self.me(bound, d - 1)), Box::new(self.me(bound, d - 1))) }
+            2 => { let ks: &[&'static str] = if self.logic { &["all", "any", "xor"] } else { &["min", "max", "avg", "abs"] }; let k = *self.r.pick(ks); let n = if k == "abs" { 1 } else { 1 + self.r.below(3) }; Me::Blk(k, (0..n).map(|_| self.me(bound, d - 1)).collect()) }
+            _ => {
+                let ks: &[&'static str] = if self.logic { &["all", "any", "xor"] } else { &["sum", "sum", "prod", "avg", "min", "max"] };
+                let k = *self.r.pick(ks);
+                let mut b = bound.to_vec();
+                let n = 1 + self.r.below(2);
+                let its: Vec<ItG> = (0..n).map(|_| self.iter(&mut b)).collect();
+                Me::Agg(k, its, Box::new(self.me(&b, d - 1)))
+            }
+        }
+    }
+}
+
+const FRAG_DECLS: &str = "define\n    z as Real(0, 9)\n    bz as Boolean\n    x_q as Real(0, 9)\n    x_a as Real(0, 9) for a in (0 - 8)..=30\n    x_a_c as Real(0, 9) for a in (0 - 8)..=30, c in (0 - 8)..=30\n    b_a as Boolean for a in (0 - 8)..=30\n    b_a_c as Boolean for a in (0 - 8)..=30, c in (0 - 8)..=30\n";
+
+fn rust_lhs(text: &str, logic: bool) -> String {
+    let src = format!("min 1\ns.t.\n    {}{}\n{}", text, if logic { "" } else { " <= 1" }, FRAG_DECLS);
+    match compile(&src) { Ok(m) => format!("(ok {})", sx::exp(m.constraints()[0].lhs())), Err(e) => if e.contains("UndeclaredVariableDomain") { "(skip)".into() } else { "(err)".into() } }
+}
+
+/// answers of the compiled Lean driver for a batch of request lines (None: driver not built)
+fn ask_driver(lines: &[String]) -> Option<Vec<String>> {
+    use std::io::Write;
+    let exe = std::path::Path::new("lean/.lake/build/bin/roocdrv");
+    if !exe.exists() { return None; }
+    let mut child = std::process::Command::new(exe).stdin(std::process::Stdio::piped()).stdout(std::process::Stdio::piped()).spawn().ok()?;
+    { let mut si = child.stdin.take()?; for l in lines { let _ = writeln!(si, "{}", l); } }
+    let out = child.wait_with_output().ok()?;
+    let ans: Vec<String> = String::from_utf8_lossy(&out.stdout).lines().map(|s| s.to_string()).collect();
+    if ans.len() == lines.len() { Some(ans) } else { None }
+}
+
+pub fn fragment_cases(r: &mut Rng, n: usize) -> Vec<Case> {
+    let mut out = vec![];
+    let mut pending: Vec<(String, bool, String, String)> = vec![]; // (request, logic, rust expansion, source text)
+    for i in 0..n {
+        let logic = i % 4 == 3;
+        let mut g = FragGen { r, fresh: 0, logic };
+        let d = 1 + g.r.below(3) as u32;
+        let e = g.me(&[], d);
+        let text = me_txt(&e);
+        let imp = rust_lhs(&text, logic);
+        if imp == "(skip)" { continue; } // an index left the declared family: not a statement about expansion
+        let mut c = mk(format!("expandme {}", me_sx(&e)), imp.clone(), &["fragment:expand", if logic { "fragment:logic" } else { "fragment:arith" }], text.clone());
+        c.tags.push(if imp == "(err)" { "fragment-outcome:error".into() } else { "fragment-outcome:expanded".into() });
+        c.nontrivial = text.contains(" in ");
+        out.push(c);
+        pending.push((format!("C06 float unrolltext {}", me_sx(&e)), logic, imp, text));
+    }
+    // the model's hand-unrolled TEXT, compiled by the real front end, against the real expansion
+    let lines: Vec<String> = pending.iter().map(|p| p.0.clone()).collect();
+    match ask_driver(&lines) {
+        None => { let mut c = Case::default(); c.tags = vec!["fragment:unroll-text".into(), "driver-missing".into()]; c.show = "lean driver not built".into(); out.push(c); }
+        Some(answers) => {
+            for ((_, logic, imp, text), ans) in pending.iter().zip(answers) {
+                let mut c = Case::default();
+                c.tags = vec!["stream:expand-model".into(), "fragment:unroll-text".into()];
+                c.show = format!("{}\n--- unrolled by the model ---\n{}", text, ans);
+                c.imp = imp.clone();
+                c.nontrivial = imp != "(err)";
+                if let Err(why) = check_unrolled_text(imp, *logic, &ans) {
+                    c.impl_violation = Some(why);
+                    c.sig = Some("expansion-differs-from-model-unrolled-text".into());
+                }
+                out.push(c);
+            }
+        }
+    }
+    out
+}
+
+/// second pass for the `unrolltext` cases: `model_answer` is the text Lean printed for `unroll p`
+pub fn check_unrolled_text(orig_imp: &str, logic: bool, model_answer: &str) -> Result<(), String> {
+    if let Some(t) = model_answer.strip_prefix("(ok \"").and_then(|s| s.strip_suffix("\")")) {
+        let t = t.replace("\\\"", "\"");
+        if t.contains("{  }") { return Ok(()); } // `min{}` of nothing has no source text
+        let again = rust_lhs(&t, logic);
+        let (a, b) = (crate::pre_sx::normalise_str(orig_imp), crate::pre_sx::normalise_str(&again));
+        if a != b { return Err(format!("expansion {} differs from the compiled hand-unrolled text `{}` = {}", a, t, b)); }
+        Ok(())
+    } else if model_answer == "(err)" {
+        if orig_imp == "(err)" { Ok(()) } else { Err(format!("the reference rejects the program, the compiler expands it to {}", orig_imp)) }
+    } else { Err(format!("unexpected model answer {}", model_answer)) }
+}
